@@ -162,6 +162,8 @@ def build(unit_name, outdir, global_rw=()):
             cur.d['derive'] = arg
         elif key == 'nocanary':
             cur.d['nocanary'] = True
+        elif key == 'noisvariant':
+            cur.d['noisvariant'] = True
         elif key in ('rw', 'rw?'):
             cur.d['rw'].append(parse_rw(arg) + (key == 'rw',))
         elif key == 'builtin':
@@ -285,6 +287,49 @@ def emit_fn(b, out, meta, unit_rw, unit_name):
     meta['functions'].append(rec)
 
 
+def snake(name):
+    s1 = re.sub(r'([a-z0-9])([A-Z])', r'\1_\2', name)
+    s1 = re.sub(r'([A-Z]+)([A-Z][a-z])', r'\1_\2', s1)
+    return s1.lower()
+
+
+def enum_variants(text):
+    """-> list of (name, shape) for the top-level variants of an enum definition text; shape in '', '(..)', '{ .. }'"""
+    m = mask(text)
+    o = m.index('{')
+    body = m[o + 1:m.rindex('}')]
+    res, depth, cur = [], 0, ''
+    for ch in body + ',':
+        if ch in '([{<':
+            depth += 1
+        elif ch in ')]}>':
+            depth -= 1
+        if ch == ',' and depth == 0:
+            item = cur.strip()
+            cur = ''
+            if not item:
+                continue
+            item = re.sub(r'#\[[^\]]*\]', '', item).strip()
+            vm = re.match(r'(\w+)\s*(\(|\{)?', item)
+            if vm:
+                res.append((vm.group(1), {'(': '(..)', '{': '{ .. }', None: ''}[vm.group(2)]))
+        else:
+            cur += ch
+    return res
+
+
+def isvariant_impl(name, text):
+    """regenerate derive_more::IsVariant (one `is_<snake>` predicate per variant), verified, not trusted"""
+    gm = re.search(r'enum\s+%s\s*(<[^{]*>)?' % re.escape(name), text)
+    gen = (gm.group(1) or '').strip() if gm else ''
+    lines = ['// regenerated derive_more::IsVariant for %s' % name, 'impl%s %s%s {' % (gen, name, gen)]
+    for v, shape in enum_variants(text):
+        lines.append('    pub fn is_%s(&self) -> (r: bool) ensures r == (*self is %s) { matches!(self, %s::%s%s) }'
+                     % (snake(v), v, name, v, shape))
+    lines.append('}')
+    return lines
+
+
 def emit_item(b, out, meta):
     rel, kind, name = b.header
     it = srcfile(rel).find_item(kind, name)
@@ -293,8 +338,10 @@ def emit_item(b, out, meta):
     if b.d['derive']:
         out.append('#[derive(%s)]' % b.d['derive'])
     if not text.lstrip().startswith('pub'):
-        pass
+        text = 'pub ' + text.lstrip()     # visibility only: spec functions over the type must be able to name it
     out.extend(text.split('\n'))
+    if kind == 'enum' and any('IsVariant' in a for a in it['attrs']) and not b.d.get('noisvariant'):
+        out.extend(isvariant_impl(name, text))
     meta['items'].append(dict(name=name, kind=kind, repo_file=rel, repo_line=it['line'], sha256=it['sha256'],
                               dropped_attrs=it['attrs']))
 
